@@ -207,7 +207,22 @@ func c054(c *an.Ctx, p *an.Prog, rule string) {
 			n++
 			args := s.CallArgs(ci)
 			parts := args[1]
-			if parts.Op != "make" {
+			if parts.Op == "slice" && parts.Args[0].Op == "alloc" && parts.Args[1] == nil && parts.Args[2] == nil {
+				parts = parts.Args[0] // []string{…} literal: the backing array
+			}
+			if parts.Op == "varargs" {
+				// []string{a, b, …}: every element is encoded
+				for _, v := range parts.Args {
+					if b := strBound(s, v); b < 0 || b > 256 {
+						bad = append(bad, fmt.Sprintf("the reply part %s has no upper bound <= MaxRequestLength (bound: %d): a long callback message produces a reply that Response.Decode and the PAM module refuse or mis-read (path %s)", v.K, b, s.BlockPath()))
+					}
+				}
+				if len(parts.Args) == 0 {
+					bad = append(bad, "no part stored")
+				}
+				return
+			}
+			if parts.Op != "make" && parts.Op != "alloc" {
 				bad = append(bad, "parts is not a local slice")
 				return
 			}
@@ -740,27 +755,20 @@ func c132(c *an.Ctx, p *an.Prog) {
 				return
 			}
 			n++
-			for i, f := range []string{"login", "password"} {
-				ok := false
-				for _, a := range s.Atoms {
-					if a.Op == "!=" && a.B.IsConst("0") && a.A.IsCallTo("builtin len") {
-						lc, _ := a.A.CallOf()
-						if strings.HasSuffix(lc.Args[0].K, fmt.Sprintf("[c:%d])", i)) {
-							ok = true
-						}
-					}
-				}
-				if !ok {
-					bad = append(bad, "empty "+f+" is accepted")
-				}
-			}
 			// four parts requested
 			okParts := false
+			var parts *an.Term
 			for _, e := range s.Events {
 				if e.Kind == "call" && e.Callee == saslPkg+".decodeLengthEncodedStrings" {
 					if pt := e.Args[1]; pt.Op == "make" && pt.Args[0].IsConst("4") && callErrNilSingle(s, e.Res) {
 						okParts = true
+						parts = pt
 					}
+				}
+			}
+			for i, f := range []string{"login", "password"} {
+				if parts == nil || !nonEmptyKey(s, fmt.Sprintf("load(&%s[c:%d])", parts.K, i)) {
+					bad = append(bad, "empty "+f+" is accepted")
 				}
 			}
 			if !okParts {
